@@ -280,13 +280,8 @@ func runR06_1(c *Ctx, r *R) {
 	// the lookups themselves
 	for _, fn := range []string{"conn.receiveData", "conn.receiveWindow"} {
 		if g := r.Need("mpx", fn); g != nil {
-			found := false
-			for _, call := range callsIn(g, false) {
-				if calleeLabel(call) == "channels.Get" {
-					found = true
-				}
-			}
-			r.Check(found, fnKey(g)+"/lookup", g.Pos(), "non-removing lookup (channels.Get), receive handled by the non-panicking path", "anchor changed: no channels.Get lookup")
+			found := lookupHost(g, "channels.Get", 3) != nil
+			r.Check(found, fnKey(g)+"/lookup", g.Pos(), "non-removing lookup (channels.Get, directly or in a helper), receive handled by the non-panicking path", "anchor changed: no channels.Get lookup reachable from the handler")
 		}
 	}
 }
@@ -510,13 +505,46 @@ func runR06_3(c *Ctx, r *R) {
 	}
 }
 
+// lookupHost: the function that performs the call labelled lbl on behalf of f: f itself, or a function of the same
+// package that f reaches through static calls (depth-bounded) - extracting the lookup into a shared helper does not
+// move the obligation out of sight.
+func lookupHost(f *ssa.Function, lbl string, depth int) *ssa.Function {
+	for _, call := range callsIn(f, false) {
+		if calleeLabel(call) == lbl {
+			return f
+		}
+	}
+	if depth == 0 {
+		return nil
+	}
+	for _, call := range callsIn(f, false) {
+		if g := call.Common().StaticCallee(); g != nil && g.Pkg == f.Pkg && g.Blocks != nil && g != f {
+			if h := lookupHost(g, lbl, depth-1); h != nil {
+				return h
+			}
+		}
+	}
+	return nil
+}
+
 func runR06_4(c *Ctx, r *R) {
 	sa := newStatusAn(c)
-	check := func(fnName, label string, miss func(ret *ssa.Return) bool) {
+	done := map[string]bool{}
+	check := func(fnName, label string, miss func(ret *ssa.Return) bool, lookup ...string) {
 		f := r.Need("mpx", fnName)
 		if f == nil {
 			return
 		}
+		// the lookup may live in a helper the handler delegates to: judge the function that performs it
+		if len(lookup) > 0 {
+			if h := lookupHost(f, lookup[0], 3); h != nil {
+				f = h
+			}
+		}
+		if done[fnKey(f)+"/"+label] {
+			return // shared helper already judged
+		}
+		done[fnKey(f)+"/"+label] = true
 		n := 0
 		for _, ret := range returnsOf(f) {
 			if !miss(ret) {
@@ -547,9 +575,9 @@ func runR06_4(c *Ctx, r *R) {
 			return false
 		}
 	}
-	check("conn.receiveData", "unknown-channel", lookupMiss("channels.Get"))
-	check("conn.receiveWindow", "unknown-channel", lookupMiss("channels.Get"))
-	check("conn.receiveClose", "unknown-channel", lookupMiss("channels.Delete"))
+	check("conn.receiveData", "unknown-channel", lookupMiss("channels.Get"), "channels.Get")
+	check("conn.receiveWindow", "unknown-channel", lookupMiss("channels.Get"), "channels.Get")
+	check("conn.receiveClose", "unknown-channel", lookupMiss("channels.Delete"), "channels.Delete")
 	check("channel.receive", "freed-channel", func(ret *ssa.Return) bool {
 		for _, cd := range pathConds(ret.Block()) {
 			if ex, ok := cd.V.(*ssa.Extract); ok && !cd.Truth && ex.Index == 1 {
